@@ -45,36 +45,88 @@ func checkC09(c *Ctx) {
 		c.undecided("R0", "instance-floor", nil, "%d exported stop methods / %d stop cores found (functions clearing the claim and calling the cancel field); 2 exported methods on the reference tree", nAPI, len(m.StopCores))
 	}
 	isAPI := func(f *ssa.Function) bool { return f.Object() != nil && f.Object().Exported() }
+	// every exported stop method: in one write-lock hold the claim is cleared, STOPPED is stored and
+	// the election context is cancelled (directly or through a shared helper)
 	for _, su := range m.StopUnits {
-		if !containsFn(m.StopCores, su) {
+		if !isAPI(su) {
 			continue
 		}
-		var clear, stop, cancel, unlock ssa.Instruction
+		fn := shortFn(su)
+		var clear, stop, cancel []ssa.Instruction
+		for _, g := range sortedFns(m.staticReach(su, false)) {
+			eachInstr(g, func(in ssa.Instruction) {
+				if val, isConst, ok := m.claimStore(in); ok && isConst && !val {
+					clear = append(clear, in)
+				}
+				if call, ok := in.(*ssa.Call); ok {
+					if fld, v, ok := m.atomicStore(call); ok && fld == m.State {
+						if sv, ok := constStr(v); ok && sv == stopped {
+							stop = append(stop, in)
+						}
+					}
+					if !call.Call.IsInvoke() && call.Call.StaticCallee() == nil {
+						if sy := m.Sym.Of(call.Call.Value); sy.Op == "path" && sy.Name == m.path(m.Cancel) {
+							cancel = append(cancel, in)
+						}
+					}
+				}
+			})
+		}
+		allHeld := func(ins []ssa.Instruction) bool {
+			if len(ins) == 0 {
+				return false
+			}
+			for _, in := range ins {
+				if !la.MustBefore(in)[m.implMuW()] {
+					return false
+				}
+			}
+			return true
+		}
+		c.check(allHeld(clear) && allHeld(stop) && allHeld(cancel), "R0", "stop unit "+fn+": clear, STOPPED and cancel under the write lock", firstInstr(su),
+			"claim cleared under %s: %v (%d sites), STOPPED stored: %v (%d), cancel called: %v (%d)", m.implMuW(), allHeld(clear), len(clear), allHeld(stop), len(stop), allHeld(cancel), len(cancel))
+		// one hold: the mutex is not released between the first of these operations and the last in the method body
+		var ops []ssa.Instruction
 		eachInstr(su, func(in ssa.Instruction) {
-			if val, isConst, ok := m.claimStore(in); ok && isConst && !val && clear == nil {
-				clear = in
+			if val, isConst, ok := m.claimStore(in); ok && isConst && !val {
+				ops = append(ops, in)
 			}
 			if call, ok := in.(*ssa.Call); ok {
-				if fld, v, ok := m.atomicStore(call); ok && fld == m.State {
-					if s, ok := constStr(v); ok && s == stopped {
-						stop = in
-					}
+				if g := call.Call.StaticCallee(); g != nil && m.isLib(g) && containsFn(m.StopCores, g) {
+					ops = append(ops, in)
 				}
 				if !call.Call.IsInvoke() && call.Call.StaticCallee() == nil {
-					if s := m.Sym.Of(call.Call.Value); s.Op == "path" && s.Name == m.path(m.Cancel) && cancel == nil {
-						cancel = in
+					if sy := m.Sym.Of(call.Call.Value); sy.Op == "path" && sy.Name == m.path(m.Cancel) {
+						ops = append(ops, in)
 					}
 				}
-				if op, ok := m.lockOpOf(&call.Call); ok && op.ID == m.path(m.Mu) && op.Kind == "Unlock" && unlock == nil && clear != nil && dominatesInstr(clear, in) {
-					unlock = in
+				if fld, v, ok := m.atomicStore(call); ok && fld == m.State {
+					if sv, ok := constStr(v); ok && sv == stopped {
+						ops = append(ops, in)
+					}
 				}
 			}
 		})
-		fn := shortFn(su)
-		okAll := clear != nil && stop != nil && cancel != nil
-		held := okAll && la.MustBefore(clear)[m.implMuW()] && la.MustBefore(stop)[m.implMuW()] && la.MustBefore(cancel)[m.implMuW()]
-		c.check(okAll && held, "R0", "stop unit "+fn+": clear, STOPPED and cancel under one write-lock hold", firstInstr(su),
-			"claim cleared: %v, STOPPED stored: %v, cancel called: %v, all under %s: %v", clear != nil, stop != nil, cancel != nil, m.implMuW(), held)
+		split := false
+		eachInstr(su, func(x ssa.Instruction) {
+			if c2, ok := x.(*ssa.Call); ok {
+				if op, ok := m.lockOpOf(&c2.Call); ok && op.ID == m.path(m.Mu) && op.Kind == "Unlock" {
+					before, after := false, false
+					for _, o := range ops {
+						if dominatesInstr(o, x) {
+							before = true
+						}
+						if dominatesInstr(x, o) {
+							after = true
+						}
+					}
+					if before && after {
+						split = true
+					}
+				}
+			}
+		})
+		c.check(!split, "R0", "stop unit "+fn+": one critical section", firstInstr(su), "the mutex is released between the clear / STOPPED / cancel operations: %v", split)
 	}
 	for _, su := range m.StopUnits {
 		if !isAPI(su) {
@@ -83,29 +135,35 @@ func checkC09(c *Ctx) {
 		fn := shortFn(su)
 		// waiter started after the unlock
 		var waiter *ssa.Go
-		eachInstr(su, func(in ssa.Instruction) {
-			if g, ok := in.(*ssa.Go); ok {
-				for _, t := range m.funcValueTargets(g.Call.Value) {
-					isWait := false
-					eachInstr(t, func(x ssa.Instruction) {
-						if m.isWGCall(x, "Wait") {
-							isWait = true
+		for _, g0 := range sortedFns(m.staticReach(su, false)) {
+			eachInstr(g0, func(in ssa.Instruction) {
+				if g, ok := in.(*ssa.Go); ok {
+					for _, t := range m.funcValueTargets(g.Call.Value) {
+						isWait := false
+						eachInstr(t, func(x ssa.Instruction) {
+							if m.isWGCall(x, "Wait") {
+								isWait = true
+							}
+						})
+						if isWait {
+							waiter = g
 						}
-					})
-					if isWait {
-						waiter = g
 					}
 				}
-			}
-		})
-		c.check(waiter != nil && !la.MayBefore(waiter).hasLock(m.path(m.Mu)), "R0", "stop unit "+fn+": waits only after releasing the mutex", waiter, "waiter goroutine found: %v; may-lockset there: %s", waiter != nil, la.MayBefore(waiterOrFirst(waiter, su)))
+			})
+		}
+		held := true
+		if waiter != nil {
+			held = la.MayBefore(waiter).hasLock(m.path(m.Mu))
+		}
+		c.check(waiter != nil && !held, "R0", "stop unit "+fn+": waits only after releasing the mutex", waiterOrFirst(waiter, su), "waiter goroutine found: %v; election mutex possibly held there: %v", waiter != nil, held)
 	}
 
 	// ---- R1 -----------------------------------------------------------------------
 	startUnit := m.method("Start")
 	nState := 0
 	for _, f := range m.Funcs {
-		if f == m.Ctor || containsFn(m.StopUnits, f) || f == startUnit {
+		if m.isCtorCode(f) || containsFn(m.StopUnits, f) || f == startUnit {
 			continue
 		}
 		eachInstr(f, func(in ssa.Instruction) {
